@@ -127,6 +127,28 @@ fn main() {
             };
             std::fs::write(&args[3], serde_json::to_string_pretty(&rep).unwrap()).unwrap();
         }
+        "fuzz-corpus" => {
+            // fuzz-corpus <text|prog> <dir>: run the in-target oracle over saved inputs (timing / replay aid)
+            std::env::set_var("VERIF_FUZZ_PROP", args.get(3).cloned().unwrap_or_else(|| "C01".into()));
+            let mut n = 0;
+            let t0 = std::time::Instant::now();
+            let mut slowest = (std::time::Duration::ZERO, String::new());
+            for e in std::fs::read_dir(&args[2]).unwrap().flatten() {
+                let data = std::fs::read(e.path()).unwrap();
+                let t1 = std::time::Instant::now();
+                if args[1] == "text" {
+                    vf::fuzz::text_target(&data);
+                } else {
+                    vf::fuzz::prog_target(&data);
+                }
+                let d = t1.elapsed();
+                if d > slowest.0 {
+                    slowest = (d, e.path().to_string_lossy().to_string());
+                }
+                n += 1;
+            }
+            println!("{n} inputs in {:?}; slowest {:?} {}", t0.elapsed(), slowest.0, slowest.1);
+        }
         "list" => {
             for p in props::all() {
                 println!("{}", p.id());
